@@ -296,6 +296,13 @@ def build_case(rec: Recorder, n: dict, script: dict, status: str):
     )
 
 
+def _cwd_is(d):
+    try:
+        return os.getcwd() == d
+    except FileNotFoundError:
+        return False
+
+
 def run_case(n: dict, script: dict, status: str, mode: str, tmp_root: str, home: str,
              observers=(), out_dir: str = None) -> dict:
     rec = Recorder()
@@ -324,7 +331,7 @@ def run_case(n: dict, script: dict, status: str, mode: str, tmp_root: str, home:
         if fo:
             fo.close()
             fe.close()
-    out = dict(log=rec.log, exception=exc, cwd_restored=(os.getcwd() == cwd0),
+    out = dict(log=rec.log, exception=exc, cwd_restored=_cwd_is(cwd0),
                env_restored=(dict(os.environ) == env0))
     if res is not None:
         fi = res.failure_info
